@@ -40,10 +40,23 @@ Circuits are registered first, call histories refer to them by id.
                               outcome as uncached); eq=?K: `KeyDeterminesPrep` is falsified at this
                               call (two circuits with one key and different preparation: a
                               digest collision), no prediction.
+  tabs <name> P=<l> T=<l> K=<l> B=<b;b;…>
+                              table lists of one backend on one verification circuit (model
+                              `P3R.Tables`): P = op types of `non_primitive_provers(D)`, T = op types
+                              with a non-empty trace, K = keys of the preprocessors' map (sorted),
+                              B = per air builder the keys it accepts (`+`-separated); lists are
+                              `,`-separated, `-` = empty. Answers
+                                tabs <name> carried=<l> air=<l> accept=<0|1> aligned=<0|1>
+                              carried = `carried P T` (what `prove_all_tables` puts into the proof),
+                              air = `airList B`, accept = `accepts P carried` (the next step's
+                              `verify_p3_batch_proof_circuit` takes it), aligned = air == carried
+  tabsacc <name> P=<l> proof=<l>
+                              answers `tabsacc <name> accept=<0|1>` = `accepts P proof`
 Unknown command, unknown circuit id, malformed token → `bad-op`. Nothing is defaulted.
 -/
 import P3R.Model.Cache
 import P3R.Model.Driver
+import P3R.Model.Tables
 
 open P3R P3R.Cache
 
@@ -121,6 +134,26 @@ def stepJobs : Step Job → List Job
   | .next j (some j') => [j, j']
   | .next j none => [j]
 
+def parseList (sep : String) (s : String) : List String :=
+  if s == "-" then [] else s.splitOn sep
+
+def showList (l : List String) : String :=
+  if l.isEmpty then "-" else ",".intercalate l
+
+/-- `key=value` token with the given key. -/
+def field (key tok : String) : Option String :=
+  if tok.startsWith (key ++ "=") then some ((tok.drop (key.length + 1)).toString) else none
+
+def runTabs (name p t k b : String) : String :=
+  let provers := parseList "," p
+  let traced := parseList "," t
+  let _keys := parseList "," k
+  let builders := (parseList ";" b).map (parseList "+")
+  let car := Tables.carried provers (fun x => traced.contains x)
+  let air := Tables.airList builders
+  let acc := Tables.accepts provers car
+  s!"tabs {name} carried={showList car} air={showList air} accept={if acc then 1 else 0} aligned={if air == car then 1 else 0}"
+
 def handle (st : St) (line : String) : St × List String :=
   match st.cur with
   | some (cid, ds, bad) =>
@@ -172,6 +205,16 @@ def handle (st : St) (line : String) : St × List String :=
         if (st.find cid).isSome then (st, ["bad-op"]) else
         ({ st with circs := st.circs ++ [⟨cid, ⟨a, b, c, d⟩, cls, cid, none, none⟩] }, [s!"ext {cid}"])
       | _, _, _, _, _, _ => (st, ["bad-op"])
+    | ["tabs", name, p, t, k, b] =>
+      match field "P" p, field "T" t, field "K" k, field "B" b with
+      | some p, some t, some k, some b => (st, [runTabs name p t k b])
+      | _, _, _, _ => (st, ["bad-op"])
+    | ["tabsacc", name, p, pr] =>
+      match field "P" p, field "proof" pr with
+      | some p, some pr =>
+        let acc := Tables.accepts (parseList "," p) (parseList "," pr)
+        (st, [s!"tabsacc {name} accept={if acc then 1 else 0}"])
+      | _, _ => (st, ["bad-op"])
     | "hist" :: toks =>
       match toks.mapM parseStep with
       | none => (st, ["bad-op"])
